@@ -366,4 +366,90 @@ theorem signature_of_assoc (lg : LG) (ga ns : V) (one : Option (List V)) (a : LG
     show (if (subsOf e).any (fun x => x.1 == subName lg a) = true then Except.ok (subName lg a) else _) = _
     rw [if_pos hany]
 
+
+/-! ### the class names of `assocPart lg` -/
+
+theorem mem_flatKeys (defs : List (String × V)) (k : String) :
+    k ∈ flatKeys defs ↔ ∃ x ∈ defs, (dget x.2 "definitions" = none ∧ x.1 = k) ∨
+      (∃ s, dget x.2 "definitions" = some s ∧ k ∈ (dictOf s).map (·.1)) := by
+  unfold flatKeys
+  simp only [List.mem_map, List.mem_flatMap]
+  constructor
+  · rintro ⟨y, ⟨x, hx, hy⟩, rfl⟩
+    refine ⟨x, hx, ?_⟩
+    cases hdg : dget x.2 "definitions" with
+    | none =>
+      rw [hdg] at hy
+      exact Or.inl ⟨rfl, by rw [List.mem_singleton.1 hy]⟩
+    | some s =>
+      rw [hdg] at hy
+      exact Or.inr ⟨s, rfl, y, hy, rfl⟩
+  · rintro ⟨x, hx, ⟨hdg, rfl⟩ | ⟨s, hdg, y, hy, rfl⟩⟩
+    · exact ⟨x, ⟨x, hx, by rw [hdg]; exact List.mem_singleton.2 rfl⟩, rfl⟩
+    · exact ⟨y, ⟨x, hx, by rw [hdg]; exact hy⟩, rfl⟩
+
+theorem slotCls_dup (lg : LG) (a : LGAssoc) (h : isDup lg a = true) : slotCls lg a = subName lg a := by
+  unfold slotCls; rw [h]; rfl
+theorem slotCls_nodup (lg : LG) (a : LGAssoc) (h : isDup lg a = false) : slotCls lg a = a.name := by
+  unfold slotCls; rw [h]; rfl
+
+theorem sigInv_flatKeys (lg : LG) (done : List LGAssoc) (defs : List (String × V)) (hinv : SigInv lg done defs)
+    (k : String) : k ∈ flatKeys defs ↔ ∃ a ∈ done, slotCls lg a = k := by
+  rw [mem_flatKeys]
+  constructor
+  · rintro ⟨⟨n, e⟩, hx, h⟩
+    obtain ⟨b, hb, hbn, h1, h2⟩ := hinv.ents _ hx
+    change b.name = n at hbn
+    cases hbd : isDup lg b with
+    | true =>
+      obtain ⟨hc, hk⟩ := h1 hbd
+      change e = container n (oneOfOf e) (subsOf e) at hc
+      have hdg : dget e "definitions" = some (.dict (subsOf e)) := by rw [hc]; rfl
+      rcases h with ⟨hn, _⟩ | ⟨s, hs, hm⟩
+      · change dget e "definitions" = none at hn
+        rw [hdg] at hn; cases hn
+      · change dget e "definitions" = some s at hs
+        rw [hdg] at hs; cases hs
+        obtain ⟨b', hb', hn', hs'⟩ := (hk k).1 hm
+        change b'.name = n at hn'
+        have hbd' : isDup lg b' = true := (isDup_congr lg b b' (hn'.trans hbn.symm)).trans hbd
+        exact ⟨b', hb', by rw [slotCls_dup lg b' hbd', hs']⟩
+    | false =>
+      obtain ⟨b', hb', hn', he'⟩ := h2 hbd
+      change b'.name = n at hn'
+      change e = assocEntry lg n b' at he'
+      have hdg : dget e "definitions" = none := by rw [he']; rfl
+      have hbd' : isDup lg b' = false := (isDup_congr lg b b' (hn'.trans hbn.symm)).trans hbd
+      rcases h with ⟨_, hk⟩ | ⟨s, hs, _⟩
+      · change n = k at hk
+        exact ⟨b', hb', by rw [slotCls_nodup lg b' hbd', hn', hk]⟩
+      · change dget e "definitions" = some s at hs
+        rw [hdg] at hs; cases hs
+  · rintro ⟨a, ha, rfl⟩
+    obtain ⟨e, he⟩ := lookup_of_any _ _ (hinv.keys a ha)
+    have hm := lookup_mem _ _ _ he
+    refine ⟨(a.name, e), hm, ?_⟩
+    obtain ⟨b, hb, hbn, h1, h2⟩ := hinv.ents _ hm
+    change b.name = a.name at hbn
+    cases hd : isDup lg a with
+    | true =>
+      have hbd : isDup lg b = true := (isDup_congr lg a b hbn).trans hd
+      obtain ⟨hc, hk⟩ := h1 hbd
+      change e = container a.name (oneOfOf e) (subsOf e) at hc
+      have hdg : dget e "definitions" = some (.dict (subsOf e)) := by rw [hc]; rfl
+      rw [slotCls_dup lg a hd]
+      exact Or.inr ⟨_, hdg, (hk _).2 ⟨a, ha, rfl, rfl⟩⟩
+    | false =>
+      have hbd : isDup lg b = false := (isDup_congr lg a b hbn).trans hd
+      obtain ⟨b', _, _, he'⟩ := h2 hbd
+      change e = assocEntry lg a.name b' at he'
+      have hdg : dget e "definitions" = none := by rw [he']; rfl
+      rw [slotCls_nodup lg a hd]
+      exact Or.inl ⟨hdg, rfl⟩
+
+/-- the class names of the association group are the class names of the associations of the language graph -/
+theorem assocPart_flatKeys (lg : LG) (k : String) :
+    k ∈ flatKeys (assocPart lg).2 ↔ ∃ a ∈ lg.associations, slotCls lg a = k :=
+  sigInv_flatKeys lg lg.associations _ (assocPart_sigInv lg) k
+
 end MalVerif.Py.Classes
